@@ -416,6 +416,10 @@ func vStop(t Token, nested bool) bool {
 //@   modifies tokens.index
 //@   ensures old(tokens.index) <= tokens.index
 //@   ensures[first-block] !typeIs(firstToken, CurlyBracketsBlock) ==> forall(j, old(tokens.index), tokens.index - 1, !typeIs(tokens.tokens[j], CurlyBracketsBlock))
+// CSS Syntax 3 §5.4.3: a top-level qualified rule ends only at its {} block (or at the end of the input): a
+// semicolon in its prelude is part of the prelude; only a nested rule stops at a semicolon
+//@   ensures[top-level-ends-at-its-block] !stopAtSemicolon && !typeIs(firstToken, CurlyBracketsBlock) ==> tokens.index == len(tokens.tokens) || (tokens.index > old(tokens.index) && typeIs(tokens.tokens[tokens.index-1], CurlyBracketsBlock))
+//@   ensures[nested-ends-at-block-or-semicolon] stopAtSemicolon && !typeIs(firstToken, CurlyBracketsBlock) && !IsLiteral(firstToken, ";") ==> tokens.index == len(tokens.tokens) || (tokens.index > old(tokens.index) && (typeIs(tokens.tokens[tokens.index-1], CurlyBracketsBlock) || IsLiteral(tokens.tokens[tokens.index-1], ";")))
 //@   loop 1 invariant old(tokens.index) <= tokens.index && tokens.index <= len(tokens.tokens) && fresh(prelude) && len(prelude) >= 1
 //@   loop 1 invariant forall(j, old(tokens.index), tokens.index, !typeIs(tokens.tokens[j], CurlyBracketsBlock))
 //@   loop 1 invariant forall(j, 0, len(prelude), prelude[j] != nil)
@@ -714,6 +718,14 @@ func vBadPairsCoverTable() (int, []string) {
 //@   call WriteString#4 assert[block-kept] arg1 == "{" && t.Content != nil
 //@   call WriteString#5 assert arg1 == "}"
 //@   call serializeTo#2 assert arg0 == t.Content
+// a hash token of type id is written as an identifier (leading digits and dashes escaped: it must tokenize back
+// as an id), an unrestricted one as a name
+//@ func (Hash).serializeTo
+//@   props C20
+//@   modifies anything
+//@   requires writer != nil && t.Value != "" && forall(i, 0, len(t.Value), t.Value[i] != 0)
+//@   call serializeIdentifier#1 assert[id-hash-as-identifier] t.isIdentifier() && arg0 == t.Value
+//@   call serializeName#1 assert[unrestricted-hash-as-name] !t.isIdentifier() && arg0 == t.Value
 // a declaration is name, colon, value, and `!important` exactly when it is flagged
 //@ func (Declaration).serializeTo
 //@   props C20
@@ -885,7 +897,7 @@ func vTokenizable(t Token) bool {
 	case AtKeyword:
 		return isName(t.Value)
 	case Hash:
-		return isName(t.Value) && !t.isIdentifier() // flagged identifiers need an ident-start value
+		return isName(t.Value)
 	case Dimension:
 		return isName(t.Unit)
 	case String, URL, Number, Percentage, Literal, FunctionBlock:
